@@ -98,13 +98,18 @@ def r1_provenance(rep, facts):
               f'values written with dotted keys fall outside their table\'s span', facts.loc(b))
     # array-of-tables span: first.start..last.end
     b = facts.body(P + 'state::ParseState::finalize_table')
+    from .shared import local_origins, method_chain
+    org = local_origins(b['body'])
     okf = False
+    how = 'no Range built in finalize_table'
     for node, f in range_structs(b):
-        st, en = peel(f['start']), peel(f['end'])
-        if (peel(st.get('base', {})).get('path') or '').startswith('first') and (peel(en.get('base', {})).get('path') or '').startswith('last') and st.get('name') == 'start' and en.get('name') == 'end':
+        _, sc = method_chain(f['start'], org)
+        _, ec = method_chain(f['end'], org)
+        how = f'start = {".".join(x.lstrip(".") for x in sc)}, end = {".".join(x.lstrip(".") for x in ec)}'
+        if 'first' in sc and 'last' not in sc and sc[-1:] == ['.start'] and 'last' in ec and 'first' not in ec and ec[-1:] == ['.end']:
             okf = True
-    firsts = {x.get('name') for x in walk(b['body']) if x.get('k') == 'mcall' and x.get('name') in ('first', 'last')}
-    rep.check(R, 'state::ParseState::finalize_table|aot-span', okf and firsts == {'first', 'last'}, 'first.start..last.end', 'the array-of-tables span is not first element start .. last element end', facts.loc(b))
+    rep.check(R, 'state::ParseState::finalize_table|aot-span', okf, how, f'the array-of-tables span is not `values.first()`\'s start .. `values.last()`\'s end ({how}): with two or more elements '
+              f'the range is reversed or too short, and rendering an error located on it subtracts with overflow', facts.loc(b))
 
 
 def r2_despan(rep, facts):
